@@ -247,6 +247,12 @@ theorem randombytes_init_eq_spec (E : List UInt8 → List UInt8 → List UInt8) 
     (entropy : List UInt8) : Drbg.abs (Drbg.Model.init E entropy none) = Drbg.Spec.instantiate E entropy [] :=
   SqiProofs.Drbg.init_refines E hE entropy
 
+/-- … and with a (48-byte) personalization string: seed_material = entropy ⊕ personalization -/
+theorem randombytes_init_pers_eq_spec (E : List UInt8 → List UInt8 → List UInt8) (hE : ∀ k v, (E k v).length = 16)
+    (entropy pers : List UInt8) (hp : pers.length = 48) :
+    Drbg.abs (Drbg.Model.init E entropy (some pers)) = Drbg.Spec.instantiate E entropy pers :=
+  SqiProofs.Drbg.init_refines_pers E hE entropy pers hp
+
 /-- every request history of the model is the specification's history (induction over the request list) -/
 theorem randombytes_history_eq_spec (E : List UInt8 → List UInt8 → List UInt8) (hE : ∀ k v, (E k v).length = 16)
     (st : Drbg.Model.St) (hv : st.v.length = 16) (reqs : List Nat) :
